@@ -13,6 +13,7 @@ func init() {
 	vk.Register("C10", "mqueue", runMQueue)
 	vk.Register("C10", "list", runList)
 	vk.Register("C10", "ring", runRing)
+	vk.Register("C10", "ringbig", runRing)
 }
 
 func genCtor(t *rapid.T) string { return rapid.SampledFrom([]string{"zero", "new"}).Draw(t, "ctor") }
@@ -37,6 +38,13 @@ func genOps(t *rapid.T, kinds []string, maxOps int, fill func(t *rapid.T, op *Op
 		fill(t, &op)
 		return op
 	}), 0, maxOps).Draw(t, "ops")
+}
+
+// bigPeekOp is the rare large shape of the stack, queue and list legs: Peek at
+// large offsets of one long container beside the one under test (seqbig.go).
+func bigPeekOp(t *rapid.T) Op {
+	size := rapid.OneOf(rapid.SampledFrom(bigSizes), rapid.SampledFrom(bigSizes), rapid.IntRange(1, 6000)).Draw(t, "bigPeekSize")
+	return Op{K: "bigPeek", A: size, B: rapid.IntRange(0, 1<<30).Draw(t, "bigPeekSeed"), C: rapid.IntRange(0, 3).Draw(t, "bigPeekExtra")}
 }
 
 // ---- stack -------------------------------------------------------------------
@@ -67,6 +75,9 @@ func genStackCase(t *rapid.T) SeqCase {
 			Op{K: rapid.SampledFrom([]string{"push", "add"}).Draw(t, "again")},
 			Op{K: rapid.SampledFrom([]string{"peek", "peekNeg"}).Draw(t, "look"), A: rapid.IntRange(0, 200).Draw(t, "la")})
 	}
+	if vk.Rare(t, "bigPeek", 16) {
+		c.Ops = splice(t, c.Ops, bigPeekOp(t))
+	}
 	return c
 }
 
@@ -95,6 +106,9 @@ func genMQueueCase(t *rapid.T) SeqCase {
 		empty := Op{K: rapid.SampledFrom([]string{"popAll", "popAll", "clear"}).Draw(t, "empty"), A: rapid.IntRange(0, 1).Draw(t, "extraPop")}
 		c.Ops = splice(t, c.Ops, Op{K: "addRun", A: rapid.IntRange(0, 6).Draw(t, "fill")}, empty,
 			Op{K: "add"}, Op{K: "add"}, Op{K: "pop"})
+	}
+	if vk.Rare(t, "bigPeek", 16) {
+		c.Ops = splice(t, c.Ops, bigPeekOp(t))
 	}
 	return c
 }
@@ -210,6 +224,9 @@ func genListCase(t *rapid.T) ListCase {
 		}
 		c.Ops = splice(t, c.Ops, blk...)
 	}
+	if vk.Rare(t, "bigPeek", 16) {
+		c.Ops = splice(t, c.Ops, bigPeekOp(t))
+	}
 	return c
 }
 
@@ -258,12 +275,52 @@ func genRingCase(t *rapid.T) RingCase {
 		c.Ops = append(append(c.Ops[:nSeed:nSeed],
 			Op{K: "of", A: rapid.IntRange(3, 5).Draw(t, "k1")}, Op{K: "of", A: rapid.IntRange(1, 5).Draw(t, "k2")}), rest...)
 	}
+	if vk.Rare(t, "bigAt", 16) {
+		// one large ring beside the pool, probed by At/Peek at both signs of
+		// offsets around 0, Len/2, Len, 2*Len and powers of two (ringbig.go)
+		size := rapid.OneOf(rapid.SampledFrom(bigSizes), rapid.SampledFrom(bigSizes), rapid.IntRange(1, 6000)).Draw(t, "bigAtSize")
+		c.Ops = splice(t, c.Ops, Op{K: "bigAt", A: size, B: rapid.IntRange(0, 1<<30).Draw(t, "bigAtSeed"), C: rapid.IntRange(0, bigVariants-1).Draw(t, "bigAtBuild")})
+	}
 	return c
 }
 
 func TestC10Ring(t *testing.T) {
 	h := vk.Start(t, "C10", "ring")
 	vk.Rapid(h, t, genRingCase, runRing)
+}
+
+// TestC10RingBig is the directed sweep of At/Peek offsets on large rings: the
+// favoured sizes (powers of two and their neighbours, round and odd sizes)
+// with every build variant (sizes above 2100 in the quick tier: one variant
+// each); sizes up to 2^16+2 (quick) or 2^20+2 (thorough).
+func TestC10RingBig(t *testing.T) {
+	h := vk.Start(t, "C10", "ringbig")
+	slot := h.Slot()
+	tl := vk.NewTally()
+	for i, c := range bigSweepCases(h.Pick(16, 20), h.Pick(2100, 10000), h.Mix("ringbig")) {
+		if h.Failed() {
+			break
+		}
+		slot.Enter(c)
+		o := &vk.Obs{}
+		msg := vk.Guard(func() string { return runRing(c, o) })
+		slot.Leave()
+		if msg != "" {
+			p := h.Fail(c, msg)
+			t.Fatalf("VK-VIOLATION property=C10 leg=ringbig replay=%s\n%s", p, msg)
+		}
+		tl.Evals++
+		for _, cl := range o.Classes() {
+			tl.Classes[cl]++
+		}
+		if c.Ops[0].A >= 1024 {
+			tl.NT++ // a ring long enough for offsets beyond 1024 in both directions
+		}
+		if i%37 == 5 {
+			h.Sample(c, c.Ops[0].A >= 1024)
+		}
+	}
+	h.MergeTally(tl)
 }
 
 func TestReplay(t *testing.T) { vk.ReplayMain(t) }
